@@ -129,3 +129,9 @@ func init() {
 		Rule: "restart: a C03 history with a clean close/reopen after every call (short histories) or at seeded positions, judged after every step against the abstract graph; crash: for EVERY mutating call of a seeded history the top-level key-value writes it issues are counted on a cloned disk and a crash is injected before each of them in turn (complete enumeration of crash points per call), the store is reopened and must show the abstract state before or after the call (graph deletion: any consistent partial state); both bulk-write error behaviours of the drivers are configurations. non-trivial = at least 2 operations; distinct = distinct (history, mode, configuration)",
 		Assumptions: []string{"each top-level write (Set, Delete, DeletePrefix, committed Update/BulkWrite) is atomic and durable when it returns, as the property states", "freezing the simulated disk at the crash point yields exactly the durable state of a process death at that point", "label listings are not compared (recorded C03 findings on independent observables)"}}
 }
+
+func init() {
+	props["C16"] = &propCfg{Level: "exploration", QuickRuns: 8000, QuickS: 50, ThoroughRuns: 800000, ThoroughS: 1500,
+		Rule: "one case = a history of graph/vertex/edge writes and deletes (with clean reopen in half of the cases) whose graph names, ids, labels, endpoints, property names and values come from hostile pools (0x00 separator, 0x01 edge-type byte, '|' '.' '/', unicode, empty, 300-byte strings, the internal words label/v/e/data/gid, prefixes of one another; deep nesting, empty containers, +-MaxFloat64, 2^53+1, strings with NUL); after every step the observable state over every identifier of the history must equal the abstract graph in which accepted writes are applied verbatim and rejected writes change nothing. non-trivial = at least 2 operations; distinct = distinct operation sequences",
+		Assumptions: []string{"acceptance is decided by the implementation (error return), the oracle only demands verbatim storage or no effect", "label listings are not compared (recorded C03 findings)"}}
+}
